@@ -558,14 +558,20 @@ def copy_provenance_oracle(w, step, sources):
     return match(roots, sources)
 
 
-def hooks(ops, stats=None):
-    """(prober, pre, post) for mut_ex.replay"""
+def hooks(ops, stats=None, probe_from=0):
+    """(prober, pre, post) for mut_ex.replay.  Steps before `probe_from` are not probed (their entry in
+    prober.obs is None): an alternative of an exhaustive group only needs the answers after its set-up."""
     pr = Prober(ops)
 
     def pre(w, si, op):
+        if si < probe_from:
+            return None
         return dict(held=pr.hold(w), sources=copy_sources(w, op) if op[0] in COPY_OPS else None)
 
     def post(w, si, step, ctx):
+        if si < probe_from:
+            pr.obs.append(None)
+            return []
         held_msg = pr.check_held(w, ctx["held"]) if ctx else None
         cur = pr.observe(w)
         out = []
